@@ -80,7 +80,8 @@ func upstreamBoundsSites(c *Ctx, pp *prProg, roots [][2]string, rule string) ([]
 	seen := map[string]int{}
 	var out []upstreamSite
 	for _, v := range verdicts {
-		if v.rule != "bounds" || v.class == "delegated" {
+		// bounds sites, and single-value type assertions (x.(T) panics when the dynamic type differs)
+		if (v.rule != "bounds" && v.rule != "assert") || v.class == "delegated" {
 			continue
 		}
 		ex, _ := v.s.n.(ast.Expr)
@@ -123,7 +124,7 @@ func upstreamBoundsRule(c *Ctx, pp *prProg, rule string, roots [][2]string) {
 			skipped++
 			usedListed[s.key] = true
 		default:
-			r.Bad(rule, s.key, s.pos, "an index/slice/division in an upstream handler reachable from peer input is not shown in range by any guard of its function, and is not one of the reviewed sites that rest on an invariant established elsewhere: %s", s.why)
+			r.Bad(rule, s.key, s.pos, "an index/slice/division or single-value type assertion in an upstream handler reachable from peer input is not shown safe by any guard of its function, and is not one of the reviewed sites that rest on an invariant established elsewhere: %s", s.why)
 		}
 	}
 	r.Count(rule+"_sites_proved", proved)
